@@ -121,6 +121,7 @@ class CtlRun:
         self.vm = None
         self.finished = False
         self.crash = None
+        self.wakes = 0
 
     def tick(self):
         x = (self.vm.now() - self.t0) / TICK
@@ -145,6 +146,10 @@ class CtlRun:
         return self.funcs[key]
 
     def on_wake(self, switch):
+        self.wakes += 1
+        if self.wakes > 3000:     # a wake-up that re-arms itself at the same instant would spin for ever
+            self.finished = True
+            raise RuntimeError("runaway: more than 3000 wake-ups in one case")
         i = int(switch.name[1:])
         self.group(["wake", i])
         self.log.append(("wake", i, self.tick()))
@@ -444,6 +449,9 @@ class EventRun:
         def h(**kwargs):
             if not self.finished:
                 self.log.append(("event", name, self.tick()))
+                if len(self.log) > 5000:
+                    self.finished = True
+                    raise RuntimeError("runaway: more than 5000 events in one case")
         return h
 
     def run(self):
